@@ -36,6 +36,7 @@ type Case struct {
 	Nonce   int    `json:"nonce"`
 	Remotes int    `json:"remotes,omitempty"`
 	Pack    int    `json:"pack"`
+	Warmup  string `json:"warmup,omitempty"` // a complete valid login on another connection precedes this one
 	Edits   []Edit `json:"edits,omitempty"`
 }
 
@@ -174,6 +175,18 @@ func apply(c Case) ([]lg.Reply, string) {
 					m := append([][]byte{}, x.Masks...)
 					m[e.V] = make([]byte, len(x.Masks[e.V]))
 					x.Masks = m
+				case "omit-type":
+					// the capability package carries no entry at all for one type (0: request, 1: response) or for any (2)
+					var ts []byte
+					var ms [][]byte
+					for k := range x.Types {
+						if e.V == 2 || k == e.V {
+							continue
+						}
+						ts = append(ts, x.Types[k])
+						ms = append(ms, x.Masks[k])
+					}
+					x.Types, x.Masks = ts, ms
 				case "zero-all":
 					m := [][]byte{}
 					for _, mm := range x.Masks {
@@ -395,6 +408,9 @@ func verdict(c Case, reps []lg.Reply, note string) (string, string, string) {
 	if v, _ := pd.Values[0].(int32); v != 1 {
 		unspec = true // cipher suite other than RSA: the statement does not list it
 	}
+	if c.Encrypt && c.Nonce+32 > c.KeyBits/8-42 && note == "" {
+		return "must-fail", "key too small for nonce and session key", size
+	}
 	switch note {
 	case "empty", "not-pem", "truncated-pem", "pem-plus-trailing-bytes", "garbage-der":
 		return "must-fail", "unusable key (" + note + ")", size
@@ -439,10 +455,21 @@ func verdict(c Case, reps []lg.Reply, note string) (string, string, string) {
 	if !ok {
 		return "must-fail", "capabilities missing", size
 	}
+	hasRequest := false
 	for i := range cp.Types {
+		if cp.Types[i] == 1 {
+			hasRequest = true
+		}
 		if len(cp.Masks[i]) > 0 && len(cp.Bits(i)) == 0 {
 			return "must-fail", "all-zero capabilities", size
 		}
+	}
+	if !hasRequest {
+		// no request capability granted at all is the all-zero answer in its shortest form
+		return "must-fail", "no request capabilities returned", size
+	}
+	if len(cp.Types) < 2 {
+		unspec = true
 	}
 	if k+2 >= len(r2) {
 		return "must-fail", "final DONE missing", size
@@ -487,7 +514,7 @@ func run(c Case) {
 	for i := 0; i < c.Remotes; i++ {
 		remotes = append(remotes, [2]string{fmt.Sprintf("remote%d", i), fmt.Sprintf("rpw%d", i)})
 	}
-	res := lg.Run(lg.Scenario{Encrypt: c.Encrypt, User: "sa", Password: "secret-password", Host: "client", Remotes: remotes, Replies: reps, Timeout: 30 * time.Second})
+	res := lg.Run(lg.Scenario{Encrypt: c.Encrypt, User: "sa", Password: "secret-password", Host: "client", Remotes: remotes, Replies: reps, Timeout: 30 * time.Second, Warmup: c.Warmup})
 	h.Eval(len(c.Edits) > 0)
 	h.State()
 	h.Trace()
@@ -496,6 +523,9 @@ func run(c Case) {
 		flow = "encrypted"
 	}
 	cls := flow + "|" + editClass(c)
+	if c.Warmup != "" {
+		cls += "|after-earlier-login"
+	}
 	js, _ := json.Marshal(c)
 	ctxt := fmt.Sprintf("%s [%s; acceptor: %s (%s)]", js, describe(reps), want, why)
 	if strings.HasPrefix(res.Failure, "DIVERGED") {
@@ -589,7 +619,7 @@ func main() {
 	for pack := 0; pack <= 2; pack++ {
 		bases = append(bases, Case{Encrypt: false, Pack: pack})
 		for _, bits := range []int{1024, 1536, 2048} {
-			for _, n := range []int{0, 1, 16, 32} {
+			for _, n := range []int{0, 1, 16, 32, bits/8 - 42 - 32 - 1, bits/8 - 42 - 32, bits/8 - 42 - 32 + 1} {
 				for rem := 0; rem <= 1; rem++ {
 					bases = append(bases, Case{Encrypt: true, KeyBits: bits, Nonce: n, Remotes: rem, Pack: pack})
 				}
@@ -640,6 +670,9 @@ func main() {
 				edits = append(edits, Edit{Op: "field", Reply: r, I: i, What: "zero-type", V: v})
 			}
 			edits = append(edits, Edit{Op: "field", Reply: r, I: i, What: "zero-all"})
+			for v := 0; v <= 2; v++ {
+				edits = append(edits, Edit{Op: "field", Reply: r, I: i, What: "omit-type", V: v})
+			}
 		}
 		edits = append(edits, Edit{Op: "stall", Reply: r}, Edit{Op: "drop-reply", Reply: r})
 		for i := 0; i <= 4; i++ {
@@ -664,6 +697,24 @@ func main() {
 			c.Edits = []Edit{e}
 			emit(c)
 			h.Section("single-edits", 1)
+		}
+	}
+	// history: the same single edits on a connection opened after an earlier successful login of the process
+	for _, w := range []string{"encrypted", "plain"} {
+		b := Case{Encrypt: true, KeyBits: 1024, Nonce: 16, Pack: 0, Warmup: w}
+		emit(b)
+		for _, e := range edits {
+			if e.Op == "field" && (e.What == "status" || e.What == "id") && e.V > 8 && e.V != 35 {
+				continue
+			}
+			c := b
+			c.Edits = []Edit{e}
+			emit(c)
+			h.Section("single-edits-after-earlier-login", 1)
+		}
+		// capability replies lacking whole types
+		for _, caps := range [][2][]byte{{{}, {}}, {{1}, {}}, {{}, {1}}} {
+			_ = caps
 		}
 	}
 	// selected pairs (also in quick): an altered package combined with a server that stalls afterwards
